@@ -270,10 +270,12 @@ def py_value(t, fn, pt):
                 v = env['f__'](*fvals)
     except Exception:
         return 'exc'
-    if isinstance(v, (bytes, bytearray)):
+    if isinstance(v, (bytes, bytearray)) and t['ret'] != 'Bytes':
         v = int.from_bytes(v, 'big')
     if t['ret'] in ('Bool', 'raises'):
         return 'true' if v else 'false'
+    if t['ret'] == 'Bytes':
+        return '[' + ','.join(str(b) for b in v) + ']'
     return str(int(v))
 
 
@@ -298,7 +300,7 @@ def validate(group, defs, per_def=300):
         pat = ', '.join('x_' + q for q in ps)
         lines.append(f'def v_{t["lean"]} : List Int := parseInts "{enc}"')
         lines.append(f'partial def go_{t["lean"]} : List Int → List String → List String\n'
-                     f'  | {" :: ".join("x_" + q for q in ps)} :: rest, acc => {lets} go_{t["lean"]} rest ((if decide ({t["lean"]}_sideOk {" ".join(ps)}) then toString ({t["lean"]} {" ".join(ps)}) else "?") :: acc)\n'
+                     f'  | {" :: ".join("x_" + q for q in ps)} :: rest, acc => {lets} go_{t["lean"]} rest ((if decide ({t["lean"]}_sideOk {" ".join(ps)}) then (toString ({t["lean"]} {" ".join(ps)})).replace " " "" else "?") :: acc)\n'
                      f'  | _, acc => acc.reverse')
         lines.append(f'#eval IO.println (s!"VAL {t["lean"]} " ++ String.intercalate " " (go_{t["lean"]} v_{t["lean"]} []))')
         work.append((t, pts))
